@@ -126,6 +126,7 @@ std::string Normalizer::ProcessTupleDeclaration(SyntaxTree::Node& root) {
     if (curNode->token.id == TokenID::ID_LOCAL) {
       const auto& name = curNode->token.data.ToText();
       newName += name;
+      newName += '@';
       tupleSubstitutes.insert({ name, curPath });
     } else if (const auto childCount = curNode->ChildrenCount(); childCount > 0) {
       for (auto child = static_cast<Index>(childCount - 1); child >= 0; --child) {
